@@ -139,7 +139,14 @@ package composite
 //@   update failed = ite(err != nil, add(failed, i), failed)
 //@ site (names.NameGenerator).GenerateName(_, _, _)
 //@   update failed = ite(err != nil, add(failed, i), failed)
+//@ ghost recorded intset = emptyintset
+//@ site meta.ReferenceTo($ro, $gvk) as record-reference
+//@   assert [C01:reference-recorded-for-the-resource-of-this-template] $ro == r
+//@   update recorded = add(recorded, i)
+//@ site *.SetResourceReferences(_, $rr)
+//@   assert [C01:one-reference-slot-per-template-is-persisted] $rr == refs && len($rr) == len(tas)
 //@ loop range tas
+//@   invariant [C01:a-reference-is-recorded-for-every-template-rendered-or-not] forall j :: 0 <= j && j < done ==> (j in recorded)
 //@   invariant [C10:unprocessed-entries-empty] forall j :: done <= j && j < len(tas) ==> (cds[j] == nil && !(j in failed))
 //@   invariant [C10:failed-render-leaves-no-resource] forall j :: 0 <= j && j < done && (j in failed) ==> cds[j] == nil
 //@   invariant [C05:rendered-are-composed-resources] len(cds) == len(tas) && forall j :: 0 <= j && j < len(tas) ==> (cds[j] == nil || typeis(cds[j], *composed.Unstructured))
@@ -456,24 +463,38 @@ package composite
 //@ func (*composite.DeletingComposedResourceGarbageCollector).GarbageCollectComposedResources
 //@ props C03 C02
 //@ requires d != nil && owner != nil
+//@ ghost deleted strset = emptystrset
+//@ ensures [C03:every-undesired-observed-resource-is-deleted] err == nil ==> forall k:Str :: k in observed && !(k in desired) ==> k in deleted
 //@ loop range observed
 //@   invariant [C03:collected-are-observed-but-not-desired] forall k:Str :: k in del ==> (k in observed && !(k in desired) && del[k] == observed[k])
 //@   invariant [C03:every-undesired-observed-resource-is-collected] forall k:Str :: k in visited && !(k in desired) ==> k in del
 //@ loop range del
 //@   invariant [C03:collected-set-unchanged-while-deleting] forall k:Str :: k in del ==> (k in observed && !(k in desired))
+//@   invariant [C03:collected-so-far-are-deleted] forall k:Str :: k in visited ==> k in deleted
+//@   invariant [C03:all-undesired-are-in-the-collected-set] forall k:Str :: k in observed && !(k in desired) ==> k in del
 //@ site (client.Writer).Update(_, _, $o, $uo...)
 //@   assert [C03:only-undesired-observed-resources-are-relabelled] $o == cd.Resource && name in observed && !(name in desired)
 //@   assert [C02:never-relabel-what-another-owner-controls] metav1.GetControllerOf(cd.Resource) == nil || metav1.GetControllerOf(cd.Resource).UID == owner.GetUID()
 //@ site (client.Writer).Delete(_, _, $o, $do...)
 //@   assert [C03:only-undesired-observed-resources-are-deleted] $o == cd.Resource && name in observed && !(name in desired)
+//@   update deleted = ite(resource.IgnoreNotFound(err) == nil, add(deleted, name), deleted)
 //@   assert [C02:never-delete-what-another-owner-controls] metav1.GetControllerOf(cd.Resource) == nil || metav1.GetControllerOf(cd.Resource).UID == owner.GetUID()
 
 // C02 / C04 (observation): a referenced resource that somebody else controls is treated as absent
 // - it never enters the observed state, so it is neither sent to functions as ours nor updated or
 // garbage collected; everything that does enter was read for a reference of this XR.
 //@ func (*composite.ExistingComposedResourceObserver).ObserveComposedResources
-//@ props C02 C04
+//@ props C02 C04 C03 C01
 //@ requires g != nil && xr != nil
+// A read of a referenced resource that fails with anything but NotFound fails the observation:
+// a resource that may well exist is never silently treated as absent (C03: a failed observation
+// writes nothing; C01: its name is not forgotten and re-generated).
+//@ ghost unreadable bool = false
+//@ site (client.Reader).Get(_, _, $key, $obj, $go...)
+//@   update unreadable = err != nil && !call("k8s.io/apimachinery/pkg/api/errors.IsNotFound", err)
+//@ ensures [C03,C01:an-unreadable-referenced-resource-fails-the-observation] err == nil ==> !unreadable
+//@ loop range xr.GetResourceReferences()
+//@   invariant [C03,C01:no-unreadable-reference-so-far] !unreadable
 //@ optional site builtin.mapupdate($m, $k, $v) as observe
 //@   where $m == ors
 //@   assert [C02:observed-resources-are-ours-or-uncontrolled] metav1.GetControllerOf(r) == nil || metav1.GetControllerOf(r).UID == xr.GetUID()
